@@ -32,7 +32,7 @@ NONRAISING_EXT = {
     "collections.OrderedDict",
     "os.path.expanduser", "os.path.join", "os.path.abspath", "os.path.exists", "os.path.isabs",
     "os.path.isdir", "os.path.isfile", "os.path.dirname", "os.path.basename",
-    "os.environ.get", "os.getenv", "os.urandom", "warnings.warn", "base64.b64encode",
+    "os.environ.get", "os.getenv", "os.urandom", "secrets.token_bytes", "hmac.compare_digest", "warnings.warn", "base64.b64encode",
     "functools.partial", "functools.wraps", "itertools.cycle", "inspect.isclass",
     "cryptography.hazmat.backends.default_backend",
     "cryptography.hazmat.primitives.ciphers.Cipher",
